@@ -20,12 +20,17 @@ impl OrdSpecImpl for Instant {
 }
 /// largest instant the stand-in can represent (real tokio Instants panic on overflow as well)
 pub open spec fn instant_max() -> int { 0xffff_ffff_ffff_ffff }
+/// upper bound assumed for the clock: 2^60 ns (36 years) after the stand-in's origin
+pub open spec fn now_max() -> int { 0x1000_0000_0000_0000 }
 pub uninterp spec fn dur_ns(d: Duration) -> nat;
 impl Instant {
     /// nanoseconds since the arbitrary origin
     pub open spec fn v(&self) -> int { self.ns as int }
+    // A-ARITH / A-STUB: the clock never runs before EPOCH (see DESIGN §7) and stays below now_max()
     #[verifier::external_body]
-    pub fn now() -> (r: Instant) { unimplemented!() }
+    pub fn now() -> (r: Instant)
+        ensures epoch().v() <= r.v() <= now_max()
+    { unimplemented!() }
     #[verifier::external_body]
     pub fn duration_since(&self, earlier: Instant) -> (d: Duration)
         ensures dur_ns(d) == if self.v() >= earlier.v() { (self.v() - earlier.v()) as nat } else { 0 }
